@@ -467,4 +467,58 @@ func TestContainerExampleUnderOr(t *testing.T) {
 	})
 }
 
+// A scalar example under an or rule none of whose alternatives admits it: alternatives that declare
+// another kind, and rule sets WITHOUT a type whose rule cannot apply to a value of the example's
+// kind (a length for a number, a bound for a string, an item count for a scalar ...). Whatever kind
+// such a rule set is given, the example is not a value its rule speaks about.
+func TestScalarExampleUnderOr(t *testing.T) {
+	run.SkipIfReplaying(t)
+	defer run.Done(t, chkCnv)
+	type ex struct{ tok, kind string }
+	examples := []ex{{"55", "integer"}, {"5", "integer"}, {"1.5", "float"}, {"true", "boolean"}, {"false", "boolean"}, {"null", "null"}, {`"x"`, "string"}, {`"true"`, "string"}}
+	declared := map[string][]string{
+		"integer": {`"string"`, `{type: "string"}`, `"boolean"`, `{type: "string", minLength: 1}`, `"null"`},
+		"float":   {`"string"`, `{type: "integer"}`, `"boolean"`, `"null"`},
+		"boolean": {`"string"`, `{type: "integer", min: 0}`, `"null"`, `{type: "string"}`},
+		"null":    {`"string"`, `{type: "integer"}`, `"boolean"`},
+		"string":  {`"integer"`, `{type: "integer", min: 0}`, `"boolean"`, `"null"`, `{type: "float"}`},
+	}
+	foreign := map[string][]string{
+		"integer": {`{minLength: 2}`, `{maxLength: 5}`, `{regex: "^5"}`, `{minItems: 3}`, `{additionalProperties: false}`, `{minLength: 1, maxLength: 9}`},
+		"float":   {`{minLength: 2}`, `{regex: "^1"}`, `{maxItems: 3}`},
+		"boolean": {`{regex: "^t"}`, `{maxLength: 5}`, `{min: 0}`, `{minItems: 0}`},
+		"null":    {`{regex: "^n"}`, `{minLength: 1}`, `{max: 3}`},
+		"string":  {`{minItems: 3}`, `{min: 1}`, `{additionalProperties: true}`, `{precision: 2}`},
+	}
+	rapid.Check(t, func(t *rapid.T) {
+		e := rapid.SampledFrom(examples).Draw(t, "example")
+		alts := []string{rapid.SampledFrom(foreign[e.kind]).Draw(t, "foreign")}
+		for i, n := 0, rapid.IntRange(1, 2).Draw(t, "ndeclared"); i < n; i++ {
+			a := rapid.SampledFrom(declared[e.kind]).Draw(t, "declared")
+			dup := false
+			for _, x := range alts {
+				dup = dup || x == a
+			}
+			if !dup {
+				alts = append(alts, a)
+			}
+		}
+		if rapid.Bool().Draw(t, "foreignLast") {
+			alts[0], alts[len(alts)-1] = alts[len(alts)-1], alts[0]
+		}
+		rule := "{or: [" + strings.Join(alts, ", ") + "]}"
+		lead := rapid.SampledFrom([]string{"", "  ", "{\n  \"p\": ", "[\n  "}).Draw(t, "lead")
+		schema := lead + e.tok + " // " + rule
+		switch {
+		case strings.HasPrefix(lead, "{"):
+			schema += "\n}"
+		case strings.HasPrefix(lead, "["):
+			schema += "\n]"
+		}
+		converse(t, CnvCase{Schema: schema, Rule: "or", Pos: len(lead)})
+		run.Eval(chkCnv, true, schema)
+		run.Label("scalar-example-admitted-by-no-alternative")
+	})
+}
+
 func TestReplay(t *testing.T) { run.TestReplay(t) }
